@@ -13,7 +13,8 @@ kind="chain": {"base": <type name>, "steps": [step…]}
     {"t":"of","c":i,"members":[j…]}             Sequence.of / Dict.of with classes of the store
     {"t":"valued","c":i,"values":[str…]}         Enum
     {"t":"to","c":i,"path":str}                  Ref
-    {"t":"inst","c":i,"kw":[[attr,val]…]}        plain (kw=[]) or overriding instantiation
+    {"t":"inst","c":i,"kw":[[attr,val]…],"val":bool}   plain (kw=[]) or overriding instantiation; val: with an
+                                                 initial value that is valid for the instance's own schema (set() runs)
   observation: {"steps":[{"r":"ok"|<exception>, "new":[class snapshots created], "changed":[[class, snapshot]…],
                           "inst": instance attribute snapshot|null}]}
   class snapshot = {"parent": id|null, attrs…, "ids": identity labels of list-valued attributes}
@@ -36,7 +37,7 @@ BASES = {
 COMMON = ["name", "optional", "default", "validators"]
 BY_KIND = {
     "scalar": [], "enum": ["valid_values"], "ref": ["target_path"],
-    "dict": ["descent_validators", "field_schema"], "seq": ["descent_validators", "member_schema"],
+    "dict": ["descent_validators", "field_schema", "policy"], "seq": ["descent_validators", "member_schema"],
     "compound": ["descent_validators", "field_schema"],
 }
 LIST_ATTRS = ("validators", "descent_validators", "field_schema")
@@ -191,7 +192,11 @@ class Real:
         elif t == "to":
             self.add(cls.to(step["path"]), c)
         elif t == "inst":
-            inst = cls(**self.kwargs(step["kw"]))
+            kw = self.kwargs(step["kw"])
+            if step.get("val") and self.kinds[c] in ("dict", "scalar", "seq"):
+                inst = cls(value_for(cls, kw.get("field_schema")), **kw)
+            else:
+                inst = cls(**kw)
             if type(inst) is not cls:
                 # _MetaCompound.__call__ derived a class on the fly
                 assert type(inst).__mro__[1] is cls
@@ -211,6 +216,37 @@ class Real:
         return out
 
 
+def value_for(cls, fields=None):
+    """a value every member of which the schema accepts: the instance's own field list (a keyword override)
+    or the class's; nested Dicts recursively, Integer members 1, sequences empty, other scalars "1"""
+    import flatland
+    if issubclass(cls, flatland.Dict):
+        fields = cls.field_schema if fields is None else fields
+        return {f.name: value_for(f) for f in fields}
+    if issubclass(cls, (flatland.List, flatland.Array)):
+        return []
+    if issubclass(cls, flatland.Integer):
+        return 1
+    return "1"
+
+
+def final_phase(real):
+    """what every class shows at the end: field_schema_mapping keys (read only now — reading it earlier
+    would be an observation the property's histories do not contain), then a plain instantiation of each"""
+    mapping = []
+    for cls, kind in zip(real.classes, real.kinds):
+        mapping.append(list(cls.field_schema_mapping) if kind in ("dict", "compound") else None)
+    plain, values = [], []
+    for i in range(len(real.classes)):
+        r, inst = real.do({"t": "inst", "c": i, "kw": [], "val": True})
+        plain.append(r)
+        try:
+            values.append(repr(inst.value) if inst is not None else None)
+        except Exception as e:  # noqa: BLE001
+            values.append(type(e).__name__)
+    return {"mapping": mapping, "plain": plain}, values
+
+
 def run_chain(case):
     real = Real(case)
     prev = real.snapshot_all()
@@ -223,7 +259,9 @@ def run_chain(case):
         steps.append({"r": r, "new": now[n:], "changed": changed,
                       "inst": real.inst_snapshot(inst, step["c"]) if inst is not None else None})
         prev = now
-    return {"start": [prev0 for prev0 in [Real(case).snapshot_all()[0]]], "steps": steps}
+    final, values = final_phase(real)
+    return {"start": [prev0 for prev0 in [Real(case).snapshot_all()[0]]], "steps": steps, "final": final,
+            "_values": values}
 
 
 # ---------------------------------------------------------------- declarative schemas
@@ -274,9 +312,17 @@ def run_schema(case):
 def _behaviour(cls):
     """what a blank instance does (forces lazy preparation)"""
     try:
+        import flatland
+        if issubclass(cls, flatland.Dict):
+            mapping = list(cls.field_schema_mapping)
+            full = cls(value_for(cls))
+            with_value = {"mapping": mapping, "value": repr(full.value),
+                          "flat": [[k, v] for k, v in full.flatten()]}
+        else:
+            with_value = None
         el = cls()
         kids = [k.name for k in el.children] if hasattr(el, "children") else []
-        return {"flat": [[k, v] for k, v in el.flatten()] if el.flattenable or kids else [],
+        return {"with_value": with_value, "flat": [[k, v] for k, v in el.flatten()] if el.flattenable or kids else [],
                 "valid": bool(el.validate()), "kids": kids, "optional": bool(el.optional),
                 "kid_optional": [bool(k.optional) for k in el.children] if hasattr(el, "children") else [],
                 "kid_valid": [bool(k.valid) for k in el.children] if hasattr(el, "children") else []}
@@ -344,6 +390,10 @@ def oracle_chain(case):
                         if ident == id(raw):
                             fails.append({"clause": "aliasing", "step": n_step, "class": ci, "attrs": [attr],
                                           "expected": "a fresh list", "observed": "shared with new class"})
+        if r == "KeyError" and step["t"] == "inst" and step.get("val"):
+            fails.append({"clause": "instance-local", "step": n_step, "class": step["c"], "attrs": ["value"],
+                          "expected": "a value naming exactly the instance's own fields is accepted",
+                          "observed": "KeyError"})
         if r == "ok" and step["t"] == "inst" and step["kw"] and real.kinds[step["c"]] != "compound":
             # keyword overrides affect that instance only
             want = {a: v for a, v in step["kw"]}
@@ -351,11 +401,16 @@ def oracle_chain(case):
             for a, v in want.items():
                 if a == "properties":
                     v = [[k, x] for k, x in dict((k, x) for k, x in v).items()]
+                if a == "field_schema":
+                    v = [{"gen": False, "name": n, "optional": o, "format": "%i"} for n, o in v]
                 if got.get(a) != v:
                     fails.append({"clause": "instance-local", "step": n_step, "class": step["c"], "attrs": [a],
                                   "expected": v, "observed": got.get(a)})
-            fresh = real.classes[step["c"]]()
-            extra = real.inst_snapshot(fresh, step["c"])
+            try:
+                fresh = real.classes[step["c"]]()
+                extra = real.inst_snapshot(fresh, step["c"])
+            except TypeError:          # the class itself has no members: only the overriding instance exists
+                extra = {}
             if extra:
                 fails.append({"clause": "instance-local", "step": n_step, "class": step["c"], "attrs": sorted(extra),
                               "expected": {}, "observed": extra})
@@ -494,6 +549,48 @@ def _rand_members(rng):
              rng.random() < 0.4] for i in range(k)]
 
 
+def _rand_dict_members(rng):
+    """1-3 (rarely 0) Integer members with distinct names for a Dict"""
+    k = rng.choice([0, 1, 1, 2, 2, 2, 3])
+    return [[n, rng.random() < 0.3] for n in rng.sample(["x", "y", "z", "w", "v"], k)]
+
+
+def gen_dict_chain(rng):
+    """a Dict with Integer members; overriding instantiations (field_schema=/policy=/name=/validators=…, with
+    and without an initial value) placed before, between and after plain ones and further derivations"""
+    steps = [{"t": "using", "c": 0, "kw": [["field_schema", _rand_dict_members(rng) or [["x", False]]]]}]
+    n = 2
+    for _ in range(rng.randint(2, 9)):
+        c = rng.randrange(n)
+        r = rng.random()
+        if r < 0.35:
+            kw = []
+            if rng.random() < 0.7:
+                kw.append(["field_schema", _rand_dict_members(rng)])
+            for a, v in (("name", rng.choice(NAMES)), ("policy", rng.choice(["subset", "strict", "duck", None])),
+                         ("validators", _rand_vs(rng)), ("default", rng.choice([None, 1])),
+                         ("optional", rng.random() < 0.5)):
+                if rng.random() < 0.25:
+                    kw.append([a, v])
+            steps.append({"t": "inst", "c": c, "kw": kw, "val": rng.random() < 0.8})
+        elif r < 0.55:
+            steps.append({"t": "inst", "c": c, "kw": [], "val": rng.random() < 0.7})
+        elif r < 0.70:
+            steps.append({"t": "named", "c": c, "name": rng.choice(NAMES)})
+            n += 1
+        elif r < 0.85:
+            kw = [[rng.choice(["optional", "policy"]), None]]
+            kw[0][1] = (rng.random() < 0.5) if kw[0][0] == "optional" else rng.choice(["subset", "strict", None])
+            if rng.random() < 0.3:
+                kw.append(["field_schema", _rand_dict_members(rng)])
+            steps.append({"t": "using", "c": c, "kw": kw})
+            n += 1
+        else:
+            steps.append({"t": "with_properties", "c": c, "pairs": [[rng.choice(KEYS), rng.randint(0, 5)]]})
+            n += 1
+    return {"kind": "chain", "base": "Dict", "steps": steps}
+
+
 def gen_compound_chain(rng):
     """DateYYYYMMDD with 0-3 user-supplied members; plain/overriding instantiations and
     using(optional=…) derivations at every point of the chain"""
@@ -537,6 +634,8 @@ def _rand_kw(rng, kind, n_classes, for_inst):
             choices.append("descent_validators")
         if kind == "compound":
             choices += ["field_schema", "optional", "optional"]
+        if kind == "dict":
+            choices += ["field_schema", "field_schema", "policy"]
         if rng.random() < 0.05:
             choices = ["bogus"]
         a = rng.choice(choices)
@@ -553,8 +652,12 @@ def _rand_kw(rng, kind, n_classes, for_inst):
             v = _rand_vs(rng)
         elif a == "properties":
             v = [[rng.choice(KEYS), rng.randint(0, 5)] for _ in range(rng.randint(0, 2))]
+        elif a == "field_schema" and kind == "dict":
+            v = _rand_dict_members(rng)
         elif a == "field_schema":
             v = _rand_members(rng)
+        elif a == "policy":
+            v = rng.choice(["subset", "strict", "duck", None])
         else:
             v = 1
         kw.append([a, v])
@@ -572,7 +675,8 @@ def gen_chain(rng, base=None, max_steps=12):
         r = rng.random()
         made = True
         if r < 0.22:
-            step = {"t": "inst", "c": c, "kw": _rand_kw(rng, kind, n, True) if rng.random() < 0.5 else []}
+            step = {"t": "inst", "c": c, "kw": _rand_kw(rng, kind, n, True) if rng.random() < 0.5 else [],
+                    "val": rng.random() < 0.5}
             # a compound derives a class on the fly for keywords naming class attributes; an unknown
             # keyword stays in kw and makes __init__ raise afterwards (the derived class is garbage)
             made = kind == "compound" and bool(step["kw"]) and not any(a == "bogus" for a, _ in step["kw"])
@@ -688,7 +792,11 @@ class C06(Property):
             "valued, to) and plain/overriding instantiations at random points, starting from a fresh subclass of each of "
             "9 built-in types (DateYYYYMMDD = lazily prepared compound); 15% of the cases are DateYYYYMMDD chains with 0-4 "
             "user-supplied Integer members (using(field_schema=[…]), some optional) interleaved with plain/overriding "
-            "instantiations and using(optional=…) at every point; plus declarative Schema hierarchies of 1-5 classes "
+            "instantiations and using(optional=…) at every point; 15% are Dict chains with Integer members where overriding "
+            "instantiations (field_schema=/policy=/name=/validators=/default=/optional=, with and without an initial value "
+            "valid for the instance's own schema, so set() runs) come before, between and after plain ones and further "
+            "derivations; at the end of every chain each class's field_schema_mapping is read and a plain instance is "
+            "built from a full value (compared with the model, and — oracle — with the same chain never instantiated); plus declarative Schema hierarchies of 1-5 classes "
             "with 0-3 bases, explicit field_schema lists and attribute declarations over 4 overlapping names; non-trivial = "
             ">= 3 successful derivations and one instantiation, or a schema with a multi-base class; distinct = distinct "
             "canonical case JSON")
@@ -720,6 +828,17 @@ class C06(Property):
             {"t": "inst", "c": 1, "kw": [["optional", True]]},
             {"t": "using", "c": 1, "kw": [["optional", True]]},
             {"t": "inst", "c": 3, "kw": []}]})
+        # seeded mutation C06r2 (field_schema_mapping memoised on the class from an instance's override): the
+        # first consumer of the class is an overriding instantiation with a value
+        out.append({"kind": "chain", "base": "Dict", "steps": [
+            {"t": "named", "c": 0, "name": "point"},
+            {"t": "using", "c": 1, "kw": [["field_schema", [["x", False], ["y", False]]]]},
+            {"t": "using", "c": 2, "kw": [["optional", True]]},
+            {"t": "with_properties", "c": 3, "pairs": [["a", 2]]},
+            {"t": "named", "c": 4, "name": "derived"},
+            {"t": "inst", "c": 4, "kw": [["field_schema", [["z", False]]], ["name", "odd"]], "val": True},
+            {"t": "inst", "c": 4, "kw": [], "val": True},
+            {"t": "named", "c": 4, "name": "later"}]})
         # planned drill: including_validators without the list copy
         out.append({"kind": "chain", "base": "String", "steps": [
             {"t": "validated_by", "c": 0, "vs": [1, 2]},
@@ -748,6 +867,8 @@ class C06(Property):
                 yield gen_schema(rng)
             elif r < 0.35:
                 yield gen_compound_chain(rng)
+            elif r < 0.50:
+                yield gen_dict_chain(rng)
             else:
                 yield gen_chain(rng)
 
@@ -776,6 +897,9 @@ class C06(Property):
             t.append("step=%s:%s" % (s["t"], o["r"]))
             if s["t"] == "inst" and s["kw"]:
                 t.append("inst-with-overrides")
+                t += ["inst-override=%s%s" % (a, "+value" if s.get("val") else "") for a, _ in s["kw"]]
+            if s["t"] == "inst" and s.get("val"):
+                t.append("inst-with-value")
         return sorted(set(t))
 
     def shrink_candidates(self, case):
